@@ -60,7 +60,7 @@ Proof. exact closed_is_closed. Qed.
 Print Assumptions C18_closed_is_closed.
 
 Theorem C18_closed_db_methods_return_ErrClosed : forall db h m, recv m = RDb -> closed_outcome db h m = ErrClosed.
-Proof. intros db h m R. unfold closed_outcome. now rewrite R. Qed.
+Proof. exact closed_db_methods_return_ErrClosed. Qed.
 Print Assumptions C18_closed_db_methods_return_ErrClosed.
 
 Theorem C18_double_close_harmless : forall s d db h,
@@ -115,14 +115,7 @@ Theorem C18_ro_quiesces_refuted_with_seeks :
     forallb no_rw_open l = true /\
     let s1 := fst (step s (CDrain d)) in
     mlog (stor (run s1 l)) <> mlog (stor s1).
-Proof.
-  exists (run (init_state false [] 1%N) [COpen false true; CApi 0 0 DbPut; CApi 0 0 DbSetReadOnly]), 0.
-  eexists. exists [CApi 0 0 DbGet; CDrain 0].
-  split; [eexists _, _, _, _; reflexivity|].
-  split; [vm_compute; reflexivity|].
-  split; [reflexivity|]. split; [reflexivity|]. split; [reflexivity|].
-  vm_compute. discriminate.
-Qed.
+Proof. exact ro_quiesces_refuted_with_seeks. Qed.
 Print Assumptions C18_ro_quiesces_refuted_with_seeks.
 
 (* 6. Released handles report their own errors, never touch the storage:
